@@ -1032,6 +1032,8 @@ class Evaluator:
                         if 'default' in dk_: return s.ev(dk_['default'], {'__parent__': None}, mem[0], depth)
                     return s.ev(val_, {'__parent__': None}, mem[0], depth)
                 if mem and isinstance(mem[1], ast.FunctionDef):
+                    decs_ = s.prog.decorators(mem[1])
+                    if 'classmethod' in decs_: return Closure(mem[1], {'__parent__': None}, mem[0], attr, v, v.node)        # cls is bound to the class
                     return Closure(mem[1], {'__parent__': None}, mem[0], attr, None, v.node)
                 return Poly.atom(('.', ('cls', v.name), attr))
         if isinstance(v, Rec):
@@ -1162,6 +1164,75 @@ class Evaluator:
         ns = {len(r.value.elts) for r in rets}
         return ns.pop() if len(ns) == 1 else None
 
+    _OP_BIN = {'add': ast.Add, 'sub': ast.Sub, 'mul': ast.Mult, 'truediv': ast.Div, 'mod': ast.Mod, 'pow': ast.Pow, 'matmul': ast.MatMult, 'floordiv': ast.FloorDiv,
+               'and_': ast.BitAnd, 'or_': ast.BitOr}
+    _OP_CMP = {'eq': ast.Eq, 'ne': ast.NotEq, 'lt': ast.Lt, 'le': ast.LtE, 'gt': ast.Gt, 'ge': ast.GtE, 'is_': ast.Is, 'is_not': ast.IsNot}
+
+    def stdlib(s, nm, args, kw, mod, depth):
+        """the functional toolkit of the standard library (operator, itertools, functools) applied to terms: each call is the comprehension /
+        operator / loop it abbreviates, so both spellings have one normal form.  NotImplemented when the function is not modelled."""
+        root, _, leaf = nm.rpartition('.')
+        if root == 'operator' or root == '_operator':
+            if leaf in s._OP_BIN and len(args) == 2 and not kw: return s.binop(s._OP_BIN[leaf](), args[0], args[1])
+            if leaf in s._OP_CMP and len(args) == 2 and not kw: return s.compare(s._OP_CMP[leaf](), args[0], args[1])
+            if leaf == 'neg' and len(args) == 1: return s.binop(ast.Mult(), Poly.const(-1), args[0])
+            if leaf == 'pos' and len(args) == 1: return args[0]
+            if leaf == 'abs' and len(args) == 1: return s.npcall('abs', args, {})
+            if leaf == 'not_' and len(args) == 1: return s.negate(s.truth(args[0]))
+            if leaf == 'truth' and len(args) == 1: return s.truth(args[0])
+            if leaf == 'contains' and len(args) == 2: return s.compare(ast.In(), args[1], args[0])
+            if leaf == 'getitem' and len(args) == 2: return s.getitem(args[0], args[1])
+            if leaf == 'itemgetter' and args and not kw: return Opq('opget', 'item', *args)
+            if leaf == 'attrgetter' and args and not kw and all(isinstance(a_, str) for a_ in args): return Opq('opget', 'attr', *args)
+            if leaf == 'methodcaller' and args and isinstance(args[0], str): return Opq('opget', 'method', args[0], tuple(args[1:]), kw)
+            return NotImplemented
+        if root == 'itertools':
+            if leaf == 'starmap' and len(args) == 2 and not kw:
+                f_, it_ = args[0], _iter_view(args[1])
+                if isinstance(it_, (list, tuple)) and len(it_) <= 24 and all(isinstance(x_, (list, tuple)) for x_ in it_):
+                    return [s.apply(f_, list(x_), {}, mod, depth) for x_ in it_]
+                el_ = s.elem_of(it_, 0)
+                if isinstance(el_, (list, tuple)):
+                    return Comp(s.apply(f_, list(el_), {}, mod, depth), [(_fuse_iter(it_), [])], 'list')
+                return NotImplemented
+            if leaf == 'chain' and args and not kw:
+                if all(isinstance(a_, (list, tuple)) for a_ in args): return [x_ for a_ in args for x_ in a_]
+                out_ = args[0]
+                for a_ in args[1:]: out_ = s.binop(ast.Add(), out_ if not isinstance(out_, tuple) else list(out_), a_ if not isinstance(a_, tuple) else list(a_))
+                return out_
+            if leaf == 'filterfalse' and len(args) == 2 and not kw:
+                neg_ = Closure(ast.parse('lambda __x: not __p(__x)', mode='eval').body, {'__parent__': None, '__p': args[0]}, mod, 'λ')
+                return s.builtin('filter', [neg_, args[1]], {}, mod, depth)
+            if leaf == 'compress' and len(args) == 2 and not kw:
+                data_, sel_ = args
+                if isinstance(data_, Opq) and data_.k and data_.k[0] == 'count' and len(data_.k) == 1:
+                    return Opq('list', s.npcall('flatnonzero', [sel_], {}))         # the positions at which the selector holds
+                if isinstance(data_, (list, tuple)) and isinstance(sel_, (list, tuple)) and len(data_) == len(sel_):
+                    keep_ = [s.truth(x_) for x_ in sel_]
+                    if all(k_ in (True, False) for k_ in keep_): return [d_ for d_, k_ in zip(data_, keep_) if k_]
+                it_ = Opq('zip', data_, sel_); el_ = s.elem_of(it_, 0)
+                if isinstance(el_, tuple) and len(el_) == 2:
+                    return Comp(el_[0], [(it_, [s.truth(el_[1])])], 'list')
+                return NotImplemented
+            if leaf == 'count' and not args and not kw: return Opq('count')
+            if leaf == 'repeat' and len(args) == 2 and isinstance(args[1], Poly) and args[1].real_const() is not None and args[1].real_const().denominator == 1:
+                return [args[0]] * int(args[1].real_const())
+            return NotImplemented
+        if root == 'functools' and leaf == 'reduce' and len(args) in (2, 3) and not kw:
+            f_, it_ = args[0], _iter_view(args[1])
+            if isinstance(it_, (list, tuple)) and len(it_) <= 24:
+                items = list(it_)
+                if len(args) == 3: acc = args[2]
+                elif items: acc, items = items[0], items[1:]
+                else: return NotImplemented
+                for x_ in items: acc = s.apply(f_, [acc, x_], {}, mod, depth)
+                return acc
+            if isinstance(f_, Ref) and (f_.name in ('operator.add', '_operator.add') or (f_.kind == 'npfun' and f_.name == 'add')):
+                tot_ = s.builtin('sum', [args[1]], {}, mod, depth)
+                return s.binop(ast.Add(), args[2], tot_) if len(args) == 3 else tot_
+            return NotImplemented
+        return NotImplemented
+
     def _lift_args(s, args, kw, rebuild, budget=3):
         """f(.., g ? a : b, ..) == g ? f(.., a, ..) : f(.., b, ..) for calls that are not interpreted further"""
         if budget <= 0: return None
@@ -1186,6 +1257,8 @@ class Evaluator:
             return {(k_ if isinstance(k_, (str, int, bool)) or k_ is None else _HK(k_)): v_ for k_ in args[0]}
         if isinstance(recv, Ref) and recv.kind in ('module', 'ext', 'class'):
             return s.apply(s.getattr(recv, attr, mod, depth), args, kw, mod, depth, node)
+        if isinstance(recv, Ref) and recv.kind == 'npfun' and attr == 'reduce' and len(args) == 1 and recv.name in ('add', 'multiply'):
+            if recv.name == 'add': return s.npcall('sum', args, {k_: v_ for k_, v_ in kw.items()})         # np.add.reduce(x) is np.sum(x)
         if attr == 'conjugate' and not args: return s.npcall('conj', [recv], {})
         if (s.self_class is not None and isinstance(recv, Poly) and recv.as_atom() == s.self_atom and ((attr.startswith('_') and not attr.startswith('__')) or attr in s.inline_self_methods)
                 and depth < s.depth_limit):
@@ -1278,6 +1351,8 @@ class Evaluator:
             if fv.kind == 'class': return s.construct(fv, args, kw, depth)
             if fv.kind == 'ext':
                 nm = fv.name
+                r_ = s.stdlib(nm, list(args), dict(kw), mod, depth)
+                if r_ is not NotImplemented: return r_
                 if nm.endswith('functools.partial') or nm == 'functools.partial':
                     return Opq('partial', *args, *[Opq('kw', k, v) for k, v in sorted(kw.items())])
                 if nm.split('.')[-1] in ('deepcopy', 'copy') and args: return args[0]
@@ -1295,6 +1370,19 @@ class Evaluator:
             pkw = {x.k[1]: x.k[2] for x in fv.k[2:] if isinstance(x, Opq) and x.k[0] == 'kw'}
             pkw.update(kw)
             return s.apply(base, pre + list(args), pkw, mod, depth, node)
+        if isinstance(fv, Opq) and fv.k and fv.k[0] == 'opget' and len(args) == 1 and not kw:
+            kind, x = fv.k[1], args[0]
+            if kind == 'item':
+                vals = [s.getitem(x, k_) for k_ in fv.k[2:]]
+                return vals[0] if len(vals) == 1 else tuple(vals)
+            if kind == 'attr':
+                def walk(o, path):
+                    for a_ in path.split('.'): o = s.getattr(o, a_, mod, depth)
+                    return o
+                vals = [walk(x, a_) for a_ in fv.k[2:]]
+                return vals[0] if len(vals) == 1 else tuple(vals)
+            if kind == 'method':
+                return s.call_method(x, fv.k[2], list(fv.k[3]), dict(fv.k[4]), mod, depth, node)
         if isinstance(fv, Opq) and fv.k and fv.k[0] == 'dispatch':
             return Opq('dispatchcall', fv.k[1], fv.k[2], tuple(args), kw)
         if isinstance(fv, Rec) and fv.clsref and depth < s.depth_limit:
@@ -1384,6 +1472,12 @@ class Evaluator:
             return Poly.atom(('len', tkey(a)))
         if name == 'getattr' and len(args) >= 2 and isinstance(args[1], str):
             return s.getattr(a, args[1], mod, depth)
+        if name in ('list', 'tuple') and len(args) == 1 and isinstance(a, Poly) and not a.is_const():
+            # list(c * np.arange(n)): an arithmetic expression in ONE range vector is the comprehension of its element expression over that range
+            rng_ = [at_ for at_ in a.atoms() if isinstance(at_, tuple) and at_[:1] == ('arange',)]
+            if len(rng_) == 1 and all(sum(e_ for at_, e_ in k_ if at_ == rng_[0]) == 1 for k_ in a.t):
+                src_ = Poly.atom(rng_[0]); beta_ = s.elem_of(src_, 0)
+                return Comp(a.subst(lambda at_: beta_ if at_ == rng_[0] else None), [(src_, [])], 'list')
         if name in ('list', 'tuple') and len(args) == 1:
             if isinstance(a, (list, tuple)): return list(a) if name == 'list' else tuple(a)
             if isinstance(a, dict): return [k.v if isinstance(k, _HK) else k for k in a]
@@ -1456,6 +1550,7 @@ class Evaluator:
         if name == 'zip' and len(args) == 2 and not kw:
             # zip(L, itertools.count())  ==  ((x, i) for i, x in enumerate(L))
             def is_count(v_):
+                if isinstance(v_, Opq) and v_.k == ('count',): return True
                 at_ = v_.as_atom() if isinstance(v_, Poly) else None
                 return isinstance(at_, tuple) and at_[:2] == ('call', ('ext', 'itertools.count')) and (not at_[2] or at_[2] == (('poly',),)) and not at_[3]
             for i_, j_ in ((0, 1), (1, 0)):
@@ -1471,7 +1566,7 @@ class Evaluator:
         if name == 'enumerate' and len(args) == 1 and isinstance(a, (list, tuple)) and (not kw or (set(kw) == {'start'} and isinstance(kw['start'], Poly) and kw['start'].is_zero())):
             return [(Poly.const(i_), x_) for i_, x_ in enumerate(a)]
         if name == 'enumerate' and kw.get('start') is not None and isinstance(kw['start'], Poly) and kw['start'].is_zero(): kw = {}
-        if name == 'filter' and len(args) == 2 and not kw and isinstance(args[0], (Closure, Ref)):
+        if name == 'filter' and len(args) == 2 and not kw and _is_callable_term(args[0]):
             # filter(f, xs) == [x for x in xs if f(x)]
             if isinstance(args[1], (list, tuple)) and len(args[1]) <= 24:
                 keep_ = [s.truth(s.apply(args[0], [x_], {}, mod, depth)) for x_ in args[1]]
@@ -1480,7 +1575,7 @@ class Evaluator:
             base_, fl_ = _fuse_iter2(_fuse_iter(it_))
             g_ = s.truth(s.apply(args[0], [x_], {}, mod, depth))
             return Comp(x_, [(base_, fl_ + ([g_] if g_ is not True else []))], 'list')
-        if name == 'map' and len(args) == 2 and not kw and (isinstance(args[0], (Closure, Ref)) or (isinstance(args[0], Poly) and args[0].as_atom() is not None)):
+        if name == 'map' and len(args) == 2 and not kw and _is_callable_term(args[0]):
             # map(f, xs) == [f(x) for x in xs]
             if isinstance(args[1], (list, tuple)) and len(args[1]) <= 24:
                 return [s.apply(args[0], [x_], {}, mod, depth) for x_ in args[1]]      # concrete sequence: element by element
@@ -1542,6 +1637,12 @@ class Evaluator:
         if name == 'negative' and len(args) == 1 and not kw: return s.binop(ast.Mult(), Poly.const(-1), a)
         if name == 'transpose' and len(args) == 1 and not kw: return s.getattr(a, 'T', None, 0)
         if name in ('real', 'imag') and len(args) == 1 and not kw and not isinstance(a, (Poly, int, F, bool, Cond)): return s.getattr(a, name, None, 0)
+        if name == 'arctan2' and len(args) == 2 and not kw and isinstance(args[0], Poly) and isinstance(args[1], Poly):
+            # arctan2(imag(z), real(z)) is the argument of z
+            ai, ar = args[0].as_atom(), args[1].as_atom()
+            if isinstance(ai, tuple) and isinstance(ar, tuple) and len(ai) == 2 and len(ar) == 2 and ai[0] == 'imag' and ar[0] == 'real' and ai[1] == ar[1]:
+                z_ = term_from_key(ai[1])
+                if z_ is not None: return s.npcall('angle', [z_], {})
         if isinstance(a, Cond):
             return Cond(a.g, s.npcall(name, [a.a] + list(args[1:]), kw), s.npcall(name, [a.b] + list(args[1:]), kw))
         if name == 'isfinite': return True if s.assume_finite else Opq('isfinite', a)
@@ -2486,6 +2587,15 @@ def _pair_set(v):
         if len(items) == 1 and isinstance(items[0], (tuple, list)): items = tuple(items[0])
         if len(items) == 2: return items[0], items[1]
     return None
+
+
+def _is_callable_term(v):
+    """a term that can be applied: function / class reference, closure, bound-method atom, partial application, getter object, callable record"""
+    if isinstance(v, (Closure, Ref)): return True
+    if isinstance(v, Poly) and v.as_atom() is not None: return True
+    if isinstance(v, Opq) and v.k and v.k[0] in ('partial', 'opget'): return True
+    if isinstance(v, Rec) and v.clsref: return True
+    return False
 
 
 def _const_keyed(d):
